@@ -24,11 +24,12 @@ PARTIAL = [
     "IEEE rounding and conditioning of LAPACK's pinv/lstsq are not modelled: two-stage comparison (direct closeness 1e-7 "
     "relative, else componentwise backward error |A b - r| <= 1e-9 (|A||b|+|r|) with the exact A, r); hat diagonal "
     "tolerance max(1e-7, 1e-13·kappa)",
-    "3-D: the array arithmetic is executed exactly by the driver and compared, its refinement to the Kronecker "
-    "specification is proved for 2-D only (C05.glam_*_2d); 3-D rests on the correspondence and the dense-Kronecker oracle",
-    "polynomial reproduction: proved for coefficient sequences (every order); that B-spline expansions with polynomial "
-    "coefficients are polynomials (needs order <= degree+1) is sampled by the oracle only; for order > degree+1 the clause is "
-    "false for every P-spline smoother (open finding C05-poly-order-exceeds-degree, counterexample theorem)",
+    "polynomial reproduction is proved for every order <= degree+1 in 1-D (C05.reproduces_polynomials, via Marsden's identity) "
+    "and for tensor-product polynomials in 2-D (C05.reproduces_tensor_polynomials_2d); the 3-D tensor version is sampled by "
+    "the oracle only; for order > degree+1 the clause is false for every P-spline smoother (open finding "
+    "C05-poly-order-exceeds-degree, C05.polynomial_counterexample)",
+    "end-to-end leverage bounds of the array arithmetic are proved in 2-D (C05.glam_hat_bounds_2d); in 3-D the ingredients "
+    "(glam_hat_3d, tensor_penalty_psd_3d, hat_bounds) are proved but not assembled into one statement",
     "singular normal equations (zero weights): only fitted values at positive weights are compared (unique there, "
     "C05.yhat_unique_on_support)",
 ]
